@@ -83,6 +83,37 @@ def _same_lvalue(t, e):
     return False
 
 
+def fstrings_to_format(tree):
+    """f'{a}.x-{b!r}' -> '{}.x-{!r}'.format(a, b)  (placeholders without a format spec only): one spelling for string
+    interpolation, so that rules that read the interpolated arguments see them whichever way the string is built"""
+    n_done = 0
+
+    class T(ast.NodeTransformer):
+        def visit_JoinedStr(self, n):
+            nonlocal n_done
+            self.generic_visit(n)
+            fmt, args = "", []
+            for v in n.values:
+                if isinstance(v, ast.Constant) and isinstance(v.value, str):
+                    fmt += v.value.replace("{", "{{").replace("}", "}}")
+                elif isinstance(v, ast.FormattedValue) and v.format_spec is None:
+                    conv = {-1: "", 115: "!s", 114: "!r", 97: "!a"}.get(v.conversion)
+                    if conv is None:
+                        return n
+                    fmt += "{" + conv + "}"
+                    args.append(v.value)
+                else:
+                    return n
+            if not args:
+                return n
+            n_done += 1
+            call = ast.Call(func=ast.Attribute(value=ast.Constant(value=fmt), attr="format", ctx=ast.Load()), args=args, keywords=[])
+            return ast.fix_missing_locations(ast.copy_location(call, n))
+
+    T().visit(tree)
+    return n_done
+
+
 def merge_nested_ifs(tree):
     """`if a: (only statement) if b: X`, neither with an else -> `if a and b: X` (innermost first)."""
     n_done = 0
@@ -956,6 +987,39 @@ def _is_plain_exit(body, kind):
     if kind == "func":
         return isinstance(st, ast.Return) and (st.value is None or (isinstance(st.value, ast.Constant) and st.value.value is None))
     return isinstance(st, ast.Continue)
+
+
+def _equivalents(test):
+    """De Morgan / double-negation spellings of the same test"""
+    out = []
+    if isinstance(test, ast.UnaryOp) and isinstance(test.op, ast.Not):
+        inner = test.operand
+        if isinstance(inner, ast.BoolOp):
+            out.append(negations(inner)[-1])          # not (a or b) -> not a and not b
+        if isinstance(inner, ast.UnaryOp) and isinstance(inner.op, ast.Not):
+            out.append(copy.deepcopy(inner.operand))
+        if isinstance(inner, ast.Compare) and len(negations(inner)) > 1:
+            out.append(negations(inner)[1])
+    if isinstance(test, ast.BoolOp):
+        # a and b  ->  not (not a or not b)
+        flipped = negations(test)[-1]
+        out.append(ast.UnaryOp(op=ast.Not(), operand=flipped))
+    for o in out:
+        ast.fix_missing_locations(ast.copy_location(o, test))
+    return out
+
+
+def orient_exprs(fn, ref_tests):
+    from .core import unparse
+    n_done = 0
+    for n in _own_nodes(fn):
+        if isinstance(n, (ast.If, ast.While)) and str(unparse(n.test, 400)) not in ref_tests:
+            for cand in _equivalents(n.test):
+                if str(unparse(cand, 400)) in ref_tests:
+                    n.test = cand
+                    n_done += 1
+                    break
+    return n_done
 
 
 def orient_tests(fn, ref_tests):
